@@ -39,6 +39,15 @@ class C19(Prop):
             g = gen.Gen(rng, max_depth=2, illtyped=0.02)
             scripts.append(g.program(nstmts=rng.randint(1, 5), depth=2))
         gid = 0
+        dollar = "M(%s=S%s,%s=S%s,%s=I0.10,%s=I0.20,%s=Li(S%s),%s=Li(S%s,S%s))" % (
+            vlib.hx("Name"), vlib.hx("plain"), vlib.hx("$Name"), vlib.hx("dollar"), vlib.hx("Count"), vlib.hx("$Count"),
+            vlib.hx("Tags"), vlib.hx("a"), vlib.hx("$Tags"), vlib.hx("b"), vlib.hx("c"))
+        for src in ["return Name;", "return $Name;", "return [Name, Count, Tags, $Name, $Count, $Tags];", "return string(Name) + \":\" + string(Count);",
+                    "t(Name, $Count); return len(Tags);"]:
+            gid += 1
+            for rep in range(3):
+                f = gen.struct_case(rng, src, ["prepare:opt", "exec:0", "exec:0"], objs=[dollar])
+                out.append(Case("run", f, "dollar-keys", group="D%d" % gid, note=src))
         for src in scripts:
             gid += 1
             objs = [gen.enc_struct(gen.rand_object(rng))]
